@@ -270,4 +270,13 @@ def obligations(tier, sc):
                   oracle="exit status 0 and exactly one INFO line saying ok ('finished ok' / 'finished partially but ok' after ^C) iff emu_init, emu_connect, every emu_step "
                          "and emu_finish succeeded; otherwise status 1 and no line saying ok; emu_finish still runs after a failing step",
                   assumptions=["emu_init/emu_connect/emu_step/emu_finish are stubs with arbitrary results; SIGINT is delivered during an emu_step call; info() lines are recorded"])))
+    # ---- model requirements of EVERY stream are checked (a seeded change stopped at the first stream that
+    # requires the model; C12's model_gate has one stream per model).  This is C14's `version_probe`
+    # obligation (real model_version_probe / should_enable over <=3 streams with symbolic version strings),
+    # re-run under this property: "version-mismatched metadata ... is rejected".
+    from checks import C14 as _c14
+    for ob in _c14.obligations(tier, sc):
+        if ob.name == "version_probe":
+            ob.name = "require_versions_all_streams"
+            obs.append(ob)
     return obs
